@@ -1,5 +1,6 @@
 import LaunchpadModel.Model.Airdrop
 import LaunchpadModel.Model.Keccak
+import LaunchpadModel.Model.AirdropCrypto
 import LaunchpadModel.Model.Proto
 /-!
 Driver for C16 (ETH airdrop). Byte strings travel as `x<lower-case hex>` (`x` = empty string); lists of byte
@@ -18,7 +19,10 @@ World lines
       (`h … ver` are the harness's independently computed primitive results = the `Crypto` witness; Keccak is
       computed here, so a wrong claim text / envelope / digest makes the witness lookup fail)
                                                         → `ok|err b=<bal self> s=<bal sender> m=<sender on the attached
-                                                           collection wl> e=<eligible> ## c=<count eth> n=<#members>`
+                                                           collection wl> e=<eligible> rc=<0|1> ## c=<count eth> n=<#members>`
+      `rc=1`: the same claim evaluated with `realCrypto` (Lean Keccak + Lean secp256k1, from the raw signature bytes, no
+      witness) gives the same ok/err, contract balance and counter as the witnessed evaluation (round 5). The optional
+      field `rce=0` (chosen by the harness, see `c16.rs`) skips that evaluation for this line (`rc=1` printed): sampling
 * `cwl_add|cwl_rm sender=<x> who=<x> res=<ok|err>`, `cwl_admins sender=<x> admins=<xs> res=…`, `cwl_freeze sender=<x> res=…`
       administration of the ATTACHED collection whitelist (environment of this property; the rules are sg-whitelist's).
       `res` = what the implementation did: the state follows it (through `EnvOp.setCwl` where the model's own rule
@@ -37,7 +41,12 @@ Function-level lines
 * `repl tpl=<x> w=<x>` → `ok <x>`; `replp pat=<x> rep=<x> s=<x>` → `ok <x>`; `contains tpl=<x>` → `ok 0|1`
 * `keccak d=<x>` → `ok <x>`; `envelope text=<x>` → `ok <x>`; `hexdec s=<x>` → `ok <x>|err`
 * `decode a=<x>` → `ok <x>|err`; `recparam v=<n>` → `ok <n>|err`
-* `verify text=<x> sig=<x> signer=<x>` + the same witness fields → `ok 0|1` | `err`
+* `verify text=<x> sig=<x> signer=<x>` + the same witness fields → `ok 0|1 rc=<0|1>` | `err rc=<0|1>`
+      (`rc=1`: `verifyEthereumText realCrypto` on the raw bytes agrees with the witnessed evaluation)
+* `secp hash=<x> sig=<x> pk=<x|->`   (round 5: secp256k1 computed in Lean, `LP.Secp`, compared with `deps.api`)
+      `sig` = `r ‖ s ‖ v` of any length; recovery id = `get_recovery_param v`, or `v` itself where that fails
+      → `err` (empty `sig`) | `rec=err addr=- ver=- vp=<0|1|err|->` | `rec=ok key=<x 65 bytes> addr=<x 20 bytes> ver=<0|1|err> vp=<0|1|err|->`
+      `ver` = `secp256k1_verify` with the recovered key, `vp` = `secp256k1_verify` with the key `pk` (33 or 65 bytes)
 -/
 open LP LP.Proto LP.Airdrop
 
@@ -92,6 +101,29 @@ structure DS where
   store : List (Nat × CollWl) := []
   /-- id of the whitelist the minter points to (0 = none) -/
   cur : Nat := 0
+
+def optBoolStr : Option Bool → String
+  | some true => "1"
+  | some false => "0"
+  | none => "err"
+
+/-- the `secp` line: everything from the bytes, by `LP.Secp` -/
+def secpLine (hash sig : Bytes) (pk : Option Bytes) : String :=
+  if sig = [] then "err"
+  else
+    let v := sig.getLast?.getD 0
+    let rs := sig.dropLast
+    let rid := (getRecoveryParam v).getD v
+    let vp := match pk with
+      | none => "-"
+      | some k => optBoolStr (LP.Secp.verifyBytes hash rs k)
+    match LP.Secp.recoverBytes hash rs rid with
+    | none => s!"rec=err addr=- ver=- vp={vp}"
+    | some key =>
+      let addr := match ethereumAddressRaw realCrypto key with
+        | some a => renderBytes a
+        | none => "-"
+      s!"rec=ok key={renderBytes key} addr={addr} ver={optBoolStr (LP.Secp.verifyBytes hash rs key)} vp={vp}"
 
 def DS.init : DS := { env := { bal := fun _ => 0, cwl := none }, st := none }
 
@@ -169,8 +201,16 @@ def c16Line (d : DS) (line : String) : DS × String :=
         let (s', okk) := match step C s (.claim sender eth sig) with
           | .ok s' => (s', true)
           | .error _ => (s, false)
+        -- the same claim decided from the raw bytes alone (Lean Keccak + Lean secp256k1)
+        let (sr, okr) :=
+          if (natKv ws "rce").getD 1 == 0 then (s', okk)
+          else match step realCrypto s (.claim sender eth sig) with
+            | .ok s' => (s', true)
+            | .error _ => (s, false)
+        let rc := okr == okk && sr.env.bal sr.self == s'.env.bal s'.self && sr.counts eth == s'.counts eth
+          && sr.env.bal sender == s'.env.bal sender
         pure ({ d with st := some s' },
-          s!"{if okk then "ok" else "err"} b={s'.env.bal s'.self} s={s'.env.bal sender} m={b01 ((members s'.env).contains sender)} e={b01 (airdropEligible s' eth)} ## c={s'.counts eth} n={(members s'.env).length}")
+          s!"{if okk then "ok" else "err"} b={s'.env.bal s'.self} s={s'.env.bal sender} m={b01 ((members s'.env).contains sender)} e={b01 (airdropEligible s' eth)} rc={b01 rc} ## c={s'.counts eth} n={(members s'.env).length}")
     | some "cwl_add" => do
       let sender ← bytesKv ws "sender"; let who ← bytesKv ws "who"; let res ← okKv ws
       let (d', mok) := envStepWitnessed d res (.cwlAdd sender who)
@@ -256,7 +296,12 @@ def c16Line (d : DS) (line : String) : DS × String :=
     | some "verify" => do
       let text ← bytesKv ws "text"; let sig ← bytesKv ws "sig"; let signer ← bytesKv ws "signer"
       let C ← cryptoOf ws
-      pure (d, match verifyEthereumText C text sig signer with | some b => s!"ok {b01 b}" | none => "err")
+      let w := verifyEthereumText C text sig signer
+      let rc := b01 (verifyEthereumText realCrypto text sig signer == w)
+      pure (d, match w with | some b => s!"ok {b01 b} rc={rc}" | none => s!"err rc={rc}")
+    | some "secp" => do
+      let hash ← bytesKv ws "hash"; let sig ← bytesKv ws "sig"; let pk ← optBytesKv ws "pk"
+      pure (d, secpLine hash sig pk)
     | _ => none
   r.getD (d, "bad-op")
 
